@@ -263,7 +263,8 @@ instantiate(const CPPTemplateParameterList *actual_params,
     SubstDecl subst;
     actual_params->build_subst_decl(_template_scope->_parameters, subst,
                                     current_scope, global_scope);
-    return _type->substitute_decl(subst, current_scope, global_scope);
+    // (Names in it are looked up where the alias template was declared.)
+    return _type->substitute_decl(subst, _template_scope, global_scope);
   }
 
   return _type->instantiate(actual_params, current_scope, global_scope, error_sink);
